@@ -154,6 +154,7 @@ class C09(Check):
             "referrers, promotion) is decided by the seeded names and target subsets. distinct = hash of (edge count bucket, "
             "max depth, op kinds, defect kind, #distinct open-order signatures); non-trivial = graph has >= 2 edges and >= 2 "
             "different open-order signatures were produced")
+    RULE = RULE + "; " + 'rounds 7-8: missing versions that alias an existing one when packed; types whose namespace repeats their own short name referring without dots to a sibling'
     TIERS = {"quick": {"runs": 800, "budget_s": 50}, "thorough": {"runs": 40000, "budget_s": 1200}}
 
     def generate(self, rng: random.Random, r: int, tier: str) -> dict:
